@@ -118,6 +118,35 @@ def cases():
             out.append(('concatenate(%s, %s)' % (show(xs), show(ys)), show(xs + ys)))
             out.append(('union(%s, %s)' % (show(xs), show(ys)), show(distinct(xs + ys))))
             out.append(('flatten([%s, [%s, 4], 5])' % (show(xs), show(ys)), show(flatten([xs, [ys, 4], 5]))))
+    # items that are lists themselves (also empty ones) and nulls: the position functions, concatenate, append and union treat an item as
+    # ONE item whatever it is - only flatten looks inside
+    ITEMS = [1, [1], [], None, [[2], 3]]
+    slists = [list(t) for n in range(0, 4) for t in itertools.product(ITEMS, repeat=n) if n < 3 or t[0] != 1]
+    for xs in slists:
+        L = show(xs)
+        out.append(('reverse(%s)' % L, show(xs[::-1])))
+        out.append(('count(%s)' % L, str(len(xs))))
+        out.append(('flatten(%s)' % L, show(flatten(xs))))
+        out.append(('append(%s, [7])' % L, show(xs + [[7]])))
+        out.append(('append(%s, [], null)' % L, show(xs + [[], None])))
+        for pos in (1, 2, -1):
+            out.append(('sublist(%s, %d)' % (L, pos), show(sublist(xs, pos))))
+            out.append(('remove(%s, %d)' % (L, pos), show(remove(xs, pos))))
+            out.append(('insert before(%s, %d, [9])' % (L, pos), show(insert_before(xs, pos, [9]))))
+        for m in ([1], [], 1):
+            out.append(('index of(%s, %s)' % (L, show(m)), show([i + 1 for i, e in enumerate(xs) if e == m and e is not None])))
+            out.append(('list contains(%s, %s)' % (L, show(m)), show(m in xs)))
+    for xs in slists:
+        if len(xs) > 2:
+            continue
+        for ys in slists:
+            if len(ys) > 2:
+                continue
+            out.append(('concatenate(%s, %s)' % (show(xs), show(ys)), show(xs + ys)))
+            out.append(('concatenate(%s, %s, [[]])' % (show(xs), show(ys)), show(xs + ys + [[]])))
+            if None not in xs + ys:
+                out.append(('union(%s, %s)' % (show(xs), show(ys)), show(distinct(xs + ys))))
+                out.append(('distinct values(%s)' % show(xs + ys), show(distinct(xs + ys))))
     # named forms of the position functions, non-integer / null positions
     for xs in ([1, 2, 3], [1], []):
         L = show(xs)
